@@ -48,6 +48,14 @@ THEOREMS = [
     "Qentem.Props.C12.run_frame",
     "Qentem.Props.C12.move_root",
     "Qentem.Props.C12.copy_root",
+    "Qentem.Props.C12.get_after_set_path",
+    "Qentem.Props.C12.copy_nested",
+    "Qentem.Props.C12.move_nested",
+    "Qentem.Props.C12.copy_source_independent",
+    "Qentem.Props.C12.copy_target_independent",
+    "Qentem.Props.C12.aliasing_excluded",
+    "Qentem.Props.C12.reachable_WF",
+    "Qentem.Props.C12.reachable_removed_key_not_found",
     "Qentem.Props.C12.number_of_nat",
     "Qentem.Props.C12.number_of_int",
     "Qentem.Props.C12.number_of_real",
@@ -72,6 +80,15 @@ THEOREMS = [
     "Qentem.Value.WF_resetPayload",
     "Qentem.Value.WF_copyDoc",
     "Qentem.Value.WF_compress",
+    "Qentem.Value.WF_assignType",
+    "Qentem.Value.WF_getAt",
+    "Qentem.Value.WF_modAt",
+    "Qentem.Value.WF_groupByA",
+    "Qentem.Value.step_WF",
+    "Qentem.Value.run_WF",
+    "Qentem.Value.getAt_updPath",
+    "Qentem.Value.getAt_modAt",
+    "Qentem.Value.getAt_modAt_undef",
 ]
 
 
@@ -151,6 +168,10 @@ def noptr(t):
     if t[0] == "o":
         return ("o", t[1], [None if kv is None else (kv[0], noptr(kv[1])) for kv in t[2]])
     return t
+
+
+def noptr_slot(kv):
+    return None if kv is None else (kv[0], noptr(kv[1]))
 
 
 def fully_compressed(t):
@@ -241,6 +262,20 @@ def check_laws(ops, impl_line):
                         out.append(("copy-content", "after '%s' the target is %r, the source was %r" % (op, node, src_before)))
                     if noptr(cur[sr]) != noptr(prev[sr]):
                         out.append(("copy-independence", "'%s' changed its source" % op))
+        # an indexed subscript on an object whose slot is live (even with an Undefined value) stays inside
+        # that object: same keys in the same slots, every other member untouched
+        if name in ("set", "typ", "app", "ins", "rem", "rmi", "rst", "cmp", "ptr", "adp") and tp and tp[0][0] == "i" \
+                and prev[tr][0] == "o" and tp[0][1] < len(prev[tr][2]) and prev[tr][2][tp[0][1]] is not None:
+            i0 = tp[0][1]
+            ok = cur[tr][0] == "o" and len(cur[tr][2]) == len(prev[tr][2])
+            if ok:
+                for j, (a, b) in enumerate(zip(prev[tr][2], cur[tr][2])):
+                    if j == i0:
+                        ok = ok and b is not None and b[0] == a[0]
+                    else:
+                        ok = ok and noptr_slot(a) == noptr_slot(b)
+            if not ok:
+                out.append(("index-into-object", "'%s' on %r gave %r: slot %d is live, the object and its other members must stay" % (op, prev[tr], cur[tr], i0)))
         if name == "typ":
             empty = {0: ("U",), 2: ("o", "0", []), 3: ("a", []), 4: ("s", "-"), 5: ("n", 0), 6: ("i", 0),
                      7: ("r", "0000000000000000"), 8: ("T",), 9: ("F",), 10: ("N",)}.get(int(t[2]))
@@ -296,7 +331,7 @@ def check_laws(ops, impl_line):
 
 SMALL_OPS = ["set 0/ka97 n1", "set 0/kb98 sa120", "set 0/ke97.97 T", "set 0/kc97 z", "rem 0 97 a", "rem 0 98 b",
              "rmi 0 0 a", "rmi 0 1 b", "cmp 0", "set 0/ia1 N", "app 0 i-5", "ins 0 98 U", "set 0/kd98/ka97 n2",
-             "cpy 1 0 a", "mrg 0 1 b", "apv 0 1 b", "mov 0 1 a"]
+             "cpy 1 0 a", "mrg 0 1 b", "apv 0 1 b", "mov 0 1 a", "set 0/kf98 z", "set 0/ib1 n5"]
 
 
 def gen_lines(ctx):
@@ -327,9 +362,8 @@ def gen_lines(ctx):
 
 
 def run(ctx):
-    ctx.prove(["Qentem.Props.C12", "Qentem.Proofs.ValueWF"], THEOREMS,
-              open_statements=["step preserves WF for every Op (proved per value operation: WF_updPath, WF_addValue, WF_mergeInto, WF_copyDoc, WF_compress, ...; not yet assembled over getAt/modAt/groupByA/assignType)",
-                               "refAt (updPath p f d) p = f (...) for nested targets of move/copy (proved root-to-root; nested case checked by the law oracle)"])
+    ctx.prove(["Qentem.Props.C12", "Qentem.Proofs.ValueWF", "Qentem.Proofs.ValuePath"], THEOREMS,
+              open_statements=["copy/move between locations of the same root (source inside destination or vice versa) are excluded by the checked precondition t.root != s.root (aliasing_excluded), not proved equal to a value-semantics result"])
     drv = ctx.build_driver()
     exe = ctx.build_harness("value_harness.cpp")
     if not (drv and exe):
